@@ -50,7 +50,7 @@ def bound(tier):
 
 
 def plan(tier, seed):
-    items = []
+    items = [dict(layer="stream", kind=k_) for k_ in ("positive", "complex", "mixed")]
     trees = TREES_QUICK if tier == "quick" else TREES_THOROUGH
     for kind, arch, K in trees:
         D = 2 ** arch[0]
@@ -226,6 +226,30 @@ def tree_case(acc, case, scenario, k, start_rows, overwrite, st=None):
     if not close(law, exp, TOL, at=1e-12):
         acc.viol("gibbs:k-step-law-differs-from-kernel-power", dict(case, scenario=scenario, k=k, start=start_rows, overwrite=overwrite),
                  observed=law, expected=exp, detail=dict(max_abs_diff=e), tol=TOL)
+
+
+def run_stream(acc, kind):
+    """successive sampling calls continue ONE seeded random stream: a call with k >= 1 (or a random start) must leave
+    the global generator advanced - a call that restores the generator state on exit makes every later call replay
+    the same noise (each single call looks exact, chains continued across calls are not)."""
+    L = lib()
+    arch = [2, 2] if kind != "mixed" else [2, 1, 1]
+    st = build_state(kind, arch, pattern_params(kind, arch, 0))
+    x = tbits(2)[[1, 2]].clone()
+    for name, fn in (("sample(k=1, initial_state)", lambda: st.sample(k=1, initial_state=x)), ("sample(k=2, num_samples=3)", lambda: st.sample(k=2, num_samples=3)),
+                     ("sample(k=0, num_samples=3)", lambda: st.sample(k=0, num_samples=3)), ("gibbs_steps(1)", lambda: st.rbm_am.gibbs_steps(1, x))):
+        acc.ev(1, nontrivial=True)
+        torch.manual_seed(17)
+        g0 = torch.get_rng_state().clone()
+        call(fn)
+        g1 = torch.get_rng_state().clone()
+        call(fn)
+        g2 = torch.get_rng_state().clone()
+        if torch.equal(g0, g1) or torch.equal(g1, g2):
+            acc.viol("gibbs:sampling-call-leaves-the-seeded-generator-where-it-was", dict(kind=kind, layer="stream", call=name))
+        acc.outcome("stream:" + kind + name)
+    acc.states += 4
+    acc.traces += 4
 
 
 def run_tree_item(acc, item):
@@ -425,6 +449,9 @@ def run_item(item):
         run_stateful(acc, item["kind"], item["arch"])
         acc.sample(dict(layer="stateful", kind=item["kind"], arch=item["arch"], updates=["copy_", "rebind", "load_state_dict", "add_", "fit"]), cap=1)
         return acc
+    if item["layer"] == "stream":
+        run_stream(acc, item["kind"])
+        return acc
     if item["layer"] in ("tree", "tree-extra"):
         run_tree_item(acc, item)
         return acc
@@ -447,7 +474,9 @@ def replay(case):
     if case.get("history"):
         run_stateful(acc, case["kind"], case["arch"])
         return acc
-    if case.get("layer") == "cond":
+    if case.get("layer") == "stream":
+        run_stream(acc, case["kind"])
+    elif case.get("layer") == "cond":
         cond_case(acc, case["kind"], case["arch"], case["params"])
     else:
         base = dict(kind=case["kind"], arch=case["arch"], params=case["params"])
